@@ -142,6 +142,11 @@ def scen(w, variant="exit"):
             w.cover("merged-command")
 
 
+def validate():
+    from symx import validate as v
+    return v.validate_float_format()
+
+
 SCENARIOS = {"exit": scen, "retract": scen, "merge": scen}
 
 META = {
